@@ -6,8 +6,13 @@ From Verif Require Import Common.Base Common.Tactics JsScope.Model JsScope.Abs J
 (* ---- abstraction ------------------------------------------------------------------------------ *)
 Definition nk (st : state) (v : nat) : Z * Z := (vname (vget st v), vdecl (vget st v)).
 
+(* an unresolved variable is one of the first NumArgUses entries of the undeclared list of its scope *)
+Definition argp (st : state) (home : nat -> nat) (v : nat) : bool :=
+  existsb (Nat.eqb v) (und_args (sc_of st (home v))).
+
 Definition uent_of (st : state) (home : nat -> nat) (v : nat) : uent :=
-  if vdecl (vget st v) =? 0 then UPend (vname (vget st v)) else UPass (vname (vget st v)) (home v).
+  if vdecl (vget st v) =? 0 then (if argp st home v then UArg (vname (vget st v)) else UPend (vname (vget st v)))
+  else UPass (vname (vget st v)) (home v).
 
 Definition frame_of (st : state) (home : nat -> nat) (s : nat) : frame :=
   let sc := sc_of st s in
@@ -15,7 +20,9 @@ Definition frame_of (st : state) (home : nat -> nat) (s : nat) : frame :=
       (Z.to_nat (narguses sc)) (Z.to_nat (nfordecls sc)).
 
 Definition lab_root (st : state) (home : nat -> nat) (r : nat) : label :=
-  if vdecl (vget st r) =? 0 then LPend (home r) (vname (vget st r)) else LDecl (home r) (vname (vget st r)).
+  if vdecl (vget st r) =? 0 then
+    (if argp st home r then LArg (home r) (vname (vget st r)) else LPend (home r) (vname (vget st r)))
+  else LDecl (home r) (vname (vget st r)).
 
 Definition lab_of (st : state) (home : nat -> nat) (v : nat) : label := lab_root st home (root_of st v).
 
@@ -62,7 +69,7 @@ Record InvS (st : state) (log stk : list nat) (home : nat -> nat) (extra : nat -
   I_und_nodup : forall s, In s stk -> NoDup (sundeclared (sc_of st s)) ;
   I_pend_unique : forall s v1 v2, In s stk ->
           In v1 (sundeclared (sc_of st s)) -> In v2 (sundeclared (sc_of st s)) ->
-          vd st v1 = 0 -> vd st v2 = 0 -> vn st v1 = vn st v2 -> v1 = v2 ;
+          vd st v1 = 0 -> vd st v2 = 0 -> vn st v1 = vn st v2 -> argp st home v1 = argp st home v2 -> v1 = v2 ;
   I_pend_complete : forall r, (r < nvars st)%nat -> is_root st r -> vd st r = 0 ->
           (In (home r) stk /\ In r (sundeclared (sc_of st (home r)))) \/ extra r ;
   I_marks : forall s, In s stk ->
@@ -158,16 +165,19 @@ Proof. intros (H & _). unfold sc_of. rewrite H. reflexivity. Qed.
 Lemma nscopes_same_shape st st' : same_shape st st' -> nscopes st' = nscopes st.
 Proof. intros (H & _). unfold nscopes. rewrite H. reflexivity. Qed.
 
+Lemma argp_same_shape st st' home v : same_shape st st' -> argp st' home v = argp st home v.
+Proof. intros H. unfold argp. rewrite (sc_of_same_shape _ _ _ H). reflexivity. Qed.
+
 Lemma frame_of_same_shape st st' home s : same_shape st st' -> frame_of st' home s = frame_of st home s.
 Proof.
-  intros H. unfold frame_of. rewrite (sc_of_same_shape _ _ _ H). destruct H as (_ & _ & Hv). f_equal.
+  intros H. unfold frame_of. rewrite (sc_of_same_shape _ _ _ H). pose proof H as (_ & _ & Hv). f_equal.
   - apply map_ext. intros v. unfold nk. destruct (Hv v) as (-> & -> & _). reflexivity.
-  - apply map_ext. intros v. unfold uent_of. destruct (Hv v) as (-> & -> & _). reflexivity.
+  - apply map_ext. intros v. unfold uent_of. rewrite (argp_same_shape _ _ _ _ H). destruct (Hv v) as (-> & -> & _). reflexivity.
 Qed.
 
 Lemma lab_of_same_shape st st' home v : same_shape st st' -> lab_of st' home v = lab_of st home v.
 Proof.
-  intros H. unfold lab_of. rewrite (root_of_same_shape _ _ _ H). unfold lab_root.
+  intros H. unfold lab_of. rewrite (root_of_same_shape _ _ _ H). unfold lab_root. rewrite (argp_same_shape _ _ _ _ H).
   destruct H as (_ & _ & Hv). destruct (Hv (root_of st v)) as (-> & -> & _). reflexivity.
 Qed.
 
@@ -204,7 +214,7 @@ Proof.
   - intros r. rewrite Hnv, Er, Evd, Esc. apply I_decl_complete0.
   - intros s v. rewrite Esc, Er, Evd. apply I_und0.
   - intros s. rewrite Esc. apply I_und_nodup0.
-  - intros s v1 v2. rewrite Esc, !Evd, !Evn. apply I_pend_unique0.
+  - intros s v1 v2. rewrite Esc, !Evd, !Evn, !(argp_same_shape _ _ _ _ H). apply I_pend_unique0.
   - intros r. rewrite Hnv, Er, Evd, Esc. apply I_pend_complete0.
   - intros s. rewrite Esc. apply I_marks0.
 Qed.
@@ -238,8 +248,35 @@ Proof.
   - intros r Hr Hroot. rewrite count_root_sset. apply Hc; assumption.
 Qed.
 
-Lemma lab_of_sset st s sc home v : lab_of (sset st s sc) home v = lab_of st home v.
-Proof. unfold lab_of. rewrite root_of_sset. reflexivity. Qed.
+(* the frozen prefixes of the undeclared lists are the same in both states *)
+Definition same_args (st st' : state) : Prop := forall q, und_args (sc_of st' q) = und_args (sc_of st q).
+
+Lemma argp_ext st st' home home' v :
+  home' v = home v -> und_args (sc_of st' (home v)) = und_args (sc_of st (home v)) -> argp st' home' v = argp st home v.
+Proof. intros Hh Ha. unfold argp. rewrite Hh, Ha. reflexivity. Qed.
+
+Lemma lab_root_ext st st' home home' r :
+  vname (vget st' r) = vname (vget st r) -> vdecl (vget st' r) = vdecl (vget st r) -> home' r = home r ->
+  und_args (sc_of st' (home r)) = und_args (sc_of st (home r)) -> lab_root st' home' r = lab_root st home r.
+Proof. intros Hn Hd Hh Ha. unfold lab_root. rewrite Hn, Hd, Hh, (argp_ext _ _ _ _ _ Hh Ha). reflexivity. Qed.
+
+Lemma uent_of_ext st st' home home' v :
+  vname (vget st' v) = vname (vget st v) -> vdecl (vget st' v) = vdecl (vget st v) -> home' v = home v ->
+  und_args (sc_of st' (home v)) = und_args (sc_of st (home v)) -> uent_of st' home' v = uent_of st home v.
+Proof. intros Hn Hd Hh Ha. unfold uent_of. rewrite Hn, Hd, Hh, (argp_ext _ _ _ _ _ Hh Ha). reflexivity. Qed.
+
+Lemma lab_of_sset st s sc home v : same_args st (sset st s sc) -> lab_of (sset st s sc) home v = lab_of st home v.
+Proof. intros Ha. unfold lab_of. rewrite root_of_sset. apply lab_root_ext; try reflexivity. apply Ha. Qed.
+
+(* the frozen prefix survives changes behind it *)
+Lemma und_args_app sc (l : list nat) :
+  0 <= narguses sc <= len (sundeclared sc) ->
+  firstn (Z.to_nat (narguses sc)) (sundeclared sc ++ l) = und_args sc.
+Proof.
+  intros H. unfold und_args. rewrite firstn_app.
+  replace (Z.to_nat (narguses sc) - length (sundeclared sc))%nat with O by (unfold len in H; lia).
+  cbn [firstn]. apply app_nil_r.
+Qed.
 
 (* ---- finds through the abstraction ------------------------------------------------------------------ *)
 Lemma a_find_decl_frame st home s x :
@@ -271,22 +308,121 @@ Proof.
 Qed.
 
 Lemma uname_uent_of st home v : uname (uent_of st home v) = vname (vget st v).
-Proof. unfold uent_of. destruct (vdecl (vget st v) =? 0); reflexivity. Qed.
+Proof. unfold uent_of. destruct (vdecl (vget st v) =? 0); [destruct (argp st home v)|]; reflexivity. Qed.
+
+(* what findUndeclared looks for: the name, but not among the pending uses of the parameter list *)
+Definition und_pred (st : state) (home : nat -> nat) (x : Z) (v : nat) : bool :=
+  (vname (vget st v) =? x) && negb ((vdecl (vget st v) =? 0) && argp st home v).
 
 Lemma a_find_und_frame st home s x :
   a_find_und (frame_of st home s) x
-  = option_map (uent_of st home) (find (fun v => vname (vget st v) =? x) (sundeclared (sc_of st s))).
+  = option_map (uent_of st home) (find (und_pred st home x) (sundeclared (sc_of st s))).
 Proof.
   unfold a_find_und, frame_of. cbn [fund]. rewrite find_map.
-  f_equal. apply find_ext_in. intros v _. rewrite uname_uent_of. reflexivity.
+  f_equal. apply find_ext_in. intros v _. unfold uent_of, und_pred.
+  destruct (vdecl (vget st v) =? 0); [destruct (argp st home v)|]; cbn [uname andb negb]; rewrite ?andb_true_r, ?andb_false_r; reflexivity.
 Qed.
 
-Lemma find_undeclared_uses st sc x :
-  (forall v, In v (sundeclared sc) -> 1 <= vuses (vget st v)) ->
-  find_undeclared st sc x = find (fun v => vname (vget st v) =? x) (sundeclared sc).
+Lemma find_app_split {A} (p : A -> bool) (a b : list A) :
+  find p (a ++ b) = match find p a with Some x => Some x | None => find p b end.
+Proof. induction a as [|h t IH]; [reflexivity|]. cbn. destruct (p h); [reflexivity|exact IH]. Qed.
+
+Lemma in_und_args_argp st home s v : home v = s -> In v (und_args (sc_of st s)) -> argp st home v = true.
+Proof. intros <- H. unfold argp. apply existsb_exists. exists v. split; [exact H|apply Nat.eqb_refl]. Qed.
+
+Lemma notin_und_args_argp st home s v : home v = s -> ~ In v (und_args (sc_of st s)) -> argp st home v = false.
 Proof.
-  intros H. unfold find_undeclared. apply find_ext_in. intros v Hv. specialize (H v Hv).
-  replace (0 <? vuses (vget st v)) with true by (symmetry; apply Z.ltb_lt; lia). reflexivity.
+  intros <- H. unfold argp. destruct (existsb (Nat.eqb v) (und_args (sc_of st (home v)))) eqn:E; [|reflexivity].
+  apply existsb_exists in E. destruct E as (w & Hw & Ew). apply Nat.eqb_eq in Ew. subst w. contradiction.
+Qed.
+
+Lemma NoDup_app_disj {A} (a b : list A) : NoDup (a ++ b) -> forall x, In x a -> In x b -> False.
+Proof.
+  induction a as [|h t IH]; intros H x Ha Hb; [destruct Ha|]. cbn in H. inversion H as [|? ? Hn Hnd]; subst.
+  destruct Ha as [->|Ha]; [apply Hn; apply in_app_iff; right; exact Hb|apply (IH Hnd x Ha Hb)].
+Qed.
+
+Lemma firstn_In' {A} (l : list A) n x : In x (firstn n l) -> In x l.
+Proof. intros H. rewrite <- (firstn_skipn n l). apply in_app_iff. left. exact H. Qed.
+
+Lemma firstn_remove_at_le {A} (l : list A) : forall n k, (n <= k)%nat -> firstn n (remove_at l k) = firstn n l.
+Proof.
+  induction l as [|h t IH]; intros n k H; [destruct k; reflexivity|].
+  destruct k as [|k]; [assert (n = O) by lia; subst; reflexivity|].
+  destruct n as [|n]; [reflexivity|]. cbn. rewrite IH by lia. reflexivity.
+Qed.
+
+Lemma nth_error_firstn_in {A} (l : list A) n k x : nth_error l k = Some x -> (n <= k)%nat -> NoDup l -> ~ In x (firstn n l).
+Proof.
+  revert n k. induction l as [|h t IH]; intros n k Hk Hle Hnd Hin; [destruct k; discriminate|].
+  destruct n as [|n]; [destruct Hin|]. destruct k as [|k]; [lia|]. cbn in Hk, Hin. inversion Hnd as [|? ? Hnot Hnd']; subst.
+  destruct Hin as [->|Hin]; [apply Hnot; eapply nth_error_In; exact Hk|]. apply (IH n k Hk ltac:(lia) Hnd' Hin).
+Qed.
+
+Lemma in_firstn_list_set {A} (l : list A) : forall i n a b u,
+  nth_error l i = Some b -> u <> a -> u <> b -> (In u (firstn n (list_set l i a)) <-> In u (firstn n l)).
+Proof.
+  induction l as [|h t IH]; intros i n a b u Hi Ha Hb; [destruct i; discriminate|].
+  destruct n as [|n]; [tauto|]. destruct i as [|i]; cbn in Hi |- *.
+  - injection Hi as ->. split; intros [E|H]; try (right; exact H); congruence.
+  - specialize (IH i n a b u Hi Ha Hb). tauto.
+Qed.
+
+Lemma existsb_eqb_iff (l l' : list nat) u : (In u l <-> In u l') -> existsb (Nat.eqb u) l = existsb (Nat.eqb u) l'.
+Proof.
+  intros H. destruct (existsb (Nat.eqb u) l) eqn:E1, (existsb (Nat.eqb u) l') eqn:E2; try reflexivity.
+  - apply existsb_exists in E1. destruct E1 as (w & Hw & Ew). apply Nat.eqb_eq in Ew. subst w.
+    apply H in Hw. assert (existsb (Nat.eqb u) l' = true) by (apply existsb_exists; exists u; split; [exact Hw|apply Nat.eqb_refl]). congruence.
+  - apply existsb_exists in E2. destruct E2 as (w & Hw & Ew). apply Nat.eqb_eq in Ew. subst w.
+    apply H in Hw. assert (existsb (Nat.eqb u) l = true) by (apply existsb_exists; exists u; split; [exact Hw|apply Nat.eqb_refl]). congruence.
+Qed.
+
+Lemma in_und_args sc v : In v (und_args sc) -> In v (sundeclared sc).
+Proof. apply firstn_In'. Qed.
+
+Lemma und_split sc : sundeclared sc = und_args sc ++ und_live sc.
+Proof. unfold und_args, und_live. symmetry. apply firstn_skipn. Qed.
+
+Lemma find_undeclared_uses st home s x :
+  (forall v, In v (sundeclared (sc_of st s)) -> 1 <= vuses (vget st v)) -> NoDup (sundeclared (sc_of st s)) ->
+  (forall v, In v (sundeclared (sc_of st s)) -> vd st v = 0 -> home v = s) ->
+  find_undeclared st (sc_of st s) x = find (und_pred st home x) (sundeclared (sc_of st s)).
+Proof.
+  intros Hu Hnd Hh. unfold find_undeclared. set (sc := sc_of st s) in *.
+  replace (find (und_pred st home x) (sundeclared sc)) with (find (und_pred st home x) (und_args sc ++ und_live sc))
+    by (rewrite <- und_split; reflexivity).
+  rewrite find_app_split.
+  rewrite (und_split sc) in Hnd, Hu, Hh.
+  assert (E1 : find (fun v => (0 <? vuses (vget st v)) && (vname (vget st v) =? x) && negb (vdecl (vget st v) =? NoDecl)) (und_args sc)
+               = find (und_pred st home x) (und_args sc)).
+  { apply find_ext_in. intros v Hv. assert (Hin : In v (und_args sc ++ und_live sc)) by (apply in_app_iff; left; exact Hv).
+    specialize (Hu v Hin). replace (0 <? vuses (vget st v)) with true by (symmetry; apply Z.ltb_lt; lia).
+    unfold und_pred, NoDecl. cbn [andb]. destruct (Z.eqb_spec (vdecl (vget st v)) 0) as [E|E]; cbn [negb andb].
+    - rewrite (in_und_args_argp st home s v (Hh v Hin E) Hv). cbn. rewrite !andb_false_r. reflexivity.
+    - rewrite andb_true_r. reflexivity. }
+  assert (E2 : find (fun v => (0 <? vuses (vget st v)) && (vname (vget st v) =? x)) (und_live sc)
+               = find (und_pred st home x) (und_live sc)).
+  { apply find_ext_in. intros v Hv. assert (Hin : In v (und_args sc ++ und_live sc)) by (apply in_app_iff; right; exact Hv).
+    specialize (Hu v Hin). replace (0 <? vuses (vget st v)) with true by (symmetry; apply Z.ltb_lt; lia).
+    unfold und_pred. cbn [andb]. destruct (Z.eqb_spec (vdecl (vget st v)) 0) as [E|E]; cbn [negb andb]; [|rewrite andb_true_r; reflexivity].
+    rewrite (notin_und_args_argp st home s v (Hh v Hin E)); [cbn; rewrite andb_true_r; reflexivity|].
+    intros Ha. apply (NoDup_app_disj _ _ Hnd v Ha Hv). }
+  rewrite E1, E2. reflexivity.
+Qed.
+
+Lemma find_some_und st home (l : list nat) x v :
+  find (und_pred st home x) l = Some v -> In v l /\ vname (vget st v) = x /\ (vdecl (vget st v) = 0 -> argp st home v = false).
+Proof.
+  intros H. apply find_some in H. destruct H as [H1 H2]. unfold und_pred in H2. apply andb_true_iff in H2. destruct H2 as [H2 H3].
+  split; [exact H1|]. split; [apply Z.eqb_eq; exact H2|]. intros E. rewrite E in H3. cbn in H3. apply negb_true_iff in H3. exact H3.
+Qed.
+
+Lemma find_none_und st home (l : list nat) x :
+  find (und_pred st home x) l = None ->
+  forall v, In v l -> vname (vget st v) = x -> vdecl (vget st v) = 0 /\ argp st home v = true.
+Proof.
+  intros H v Hv E. pose proof (find_none _ _ H v Hv) as H1. unfold und_pred in H1. rewrite E, Z.eqb_refl in H1. cbn [andb] in H1.
+  apply negb_false_iff in H1. apply andb_true_iff in H1. destruct H1 as [H1 H2]. split; [apply Z.eqb_eq; exact H1|exact H2].
 Qed.
 
 Lemma find_some_name st (l : list nat) x v :
@@ -306,9 +442,10 @@ Lemma pend_label_inj st log stk home extra r1 r2 :
   InvS st log stk home extra ->
   (r1 < nvars st)%nat -> (r2 < nvars st)%nat -> is_root st r1 -> is_root st r2 ->
   vd st r1 = 0 -> vd st r2 = 0 -> home r1 = home r2 -> vn st r1 = vn st r2 ->
+  argp st home r1 = argp st home r2 ->
   ~ extra r1 -> ~ extra r2 -> r1 = r2.
 Proof.
-  intros I H1 H2 R1 R2 D1 D2 Hh Hn E1 E2.
+  intros I H1 H2 R1 R2 D1 D2 Hh Hn Ha E1 E2.
   destruct (I_pend_complete _ _ _ _ _ I r1 H1 R1 D1) as [[Hs1 Hi1]|]; [|contradiction].
   destruct (I_pend_complete _ _ _ _ _ I r2 H2 R2 D2) as [[Hs2 Hi2]|]; [|contradiction].
   rewrite <- Hh in Hi2. eapply (I_pend_unique _ _ _ _ _ I (home r1)); eassumption.
